@@ -32,6 +32,13 @@ def gen(rng):
     else:
         s = netgen.gen_heat_loop(rng)
     thermal = s["options"].get("mode") in ("sequential", "bidirectional")
+    if 0.6 <= r < 0.8 and rng.random() < 0.5:
+        # transient step sequence on a heating tree, sinks switched off and on (whole subtrees go stagnant): the two engines
+        # must agree after every step
+        T = int(rng.integers(3, 8))
+        s["c07"] = {"variant": "transient_engine", "scale": 1.0,
+                    "factors": [[float(rng.choice([0.0, 0.0, 1.0, 0.6, 1.4])) for _ in s["sinks"]] for _ in range(T)]}
+        return s
     s["c07"] = {"variant": str(rng.choice(["engine", "engine", "update", "reuse_edit"] + (["update_thermal"] * 2 if thermal else []))),
                 "scale": float(rng.choice([0.5, 1.3, 2.0]))}
     return s
@@ -50,6 +57,32 @@ def oracle(spec):
     v = spec["c07"]["variant"]
     fails = []
     base_opts = dict(spec["options"], **oracles.TIGHT)
+    if v == "transient_engine":
+        nets = {}
+        for nb_ in (True, False):
+            net = netgen.build(spec)
+            base = net.sink.mdot_kg_per_s.values.copy()
+            hist = []
+            try:
+                for step, f in enumerate(spec["c07"]["factors"]):
+                    net.sink["mdot_kg_per_s"] = base * np.asarray(f)
+                    pp.pipeflow(net, **dict(base_opts, mode="sequential", transient=True, dt=60.0, simulation_time_step=step,
+                                            use_numba=nb_))
+                    hist.append({t: net[t].copy() for t in oracles.res_tables(net)})
+            except Exception as e:
+                return {"status": "skip:transient:" + type(e).__name__}
+            nets[nb_] = hist
+        for step, (ha, hb) in enumerate(zip(nets[True], nets[False])):
+            class _N(dict):
+                pass
+            na, nb2 = _N(ha), _N(hb)
+            d = oracles.compare_results(na, nb2, atol=1e-6, rtol=1e-5)
+            if d:
+                fails.append({"fingerprint": "C07:transient-engine:%s:%s" % (d[0][0], d[0][1]), "clause": "use_numba True vs False, transient steps",
+                              "detail": {"step": step, "first": d[:3]}})
+                break
+        return {"status": "ok", "failures": fails, "hash": netgen.structure_hash(spec) + "T%d" % len(spec["c07"]["factors"]),
+                "nontrivial": True, "tags": [v], "sample": dict(netgen.summarize(spec), variant=v, steps=len(spec["c07"]["factors"]))}
     if v == "engine":
         na, ea = netgen.try_run(spec, **dict(base_opts, use_numba=True))
         nb, eb = netgen.try_run(spec, **dict(base_opts, use_numba=False))
